@@ -47,11 +47,11 @@ def confirm(wt, n):
         res["suite_with_patch"] = out.strip()
         os.makedirs(f"{wt}/tests", exist_ok=True)
         shutil.copy(f"{wt}/seeded/demo{n}.rs", f"{wt}/tests/demo{n}.rs")
-        rc, out = sh(f"cargo test --offline {feat} --test demo{n} 2>&1 | grep -E 'test result|error(\\[|:)' | head -3", wt)
+        rc, out = sh(f"cargo test --offline {feat} --test demo{n} 2>&1 | grep -E '^test result|^error' | head -3", wt)
         res["demo_with_patch"] = out.strip()
     finally:
         sh(f"git apply -R seeded/patch{n}.diff", wt)
-    rc, out = sh(f"cargo test --offline {feat} --test demo{n} 2>&1 | grep -E 'test result|error(\\[|:)' | head -3", wt)
+    rc, out = sh(f"cargo test --offline {feat} --test demo{n} 2>&1 | grep -E '^test result|^error' | head -3", wt)
     res["demo_without_patch"] = out.strip()
     shutil.rmtree(f"{wt}/tests", ignore_errors=True)
     ok = ("72 passed; 0 failed" in res["suite_with_patch"] and "FAILED" in res["demo_with_patch"]
